@@ -36,8 +36,30 @@ Definition pb_eqb (a : option prices) (b : option pbody) : bool :=
   | _, _ => false
   end.
 
+(** What is compared of a verdict is what the property fixes: persisted a revision /
+    served without revising / refused.  WHICH refusal a request gets when several
+    apply (a doubly defective request, a panic before or after the lock, the order of
+    independent validations) is left free by the property ("... change nothing"), so
+    all refusals are one class; the refusal kind the harness derives from the error
+    text is kept in the case for diagnosis only. *)
+Inductive vclass := CPersisted | CServed | CRefused.
+Definition verdict_class (v : verdict) : vclass :=
+  match v with VOk => CPersisted | VOkNoRev => CServed | _ => CRefused end.
+Global Instance vclass_eq_dec : EqDecision vclass.
+Proof. solve_decision. Defined.
+
 Definition match_obs (r : resp) (o : obs) : bool :=
-  bool_decide (r_verdict r = o_verdict o) && rev_eqb (r_rev r) (o_rev o) && pb_eqb (r_prices r) (o_prices o).
+  bool_decide (verdict_class (r_verdict r) = verdict_class (o_verdict o))
+  && rev_eqb (r_rev r) (o_rev o) && pb_eqb (r_prices r) (o_prices o).
+
+(** diagnosis: the requests on which model and implementation refuse for different reasons *)
+Fixpoint kind_diffs (c : cfg) (s : hstate) (t : list (req * obs)) (i : N) : list (N * verdict * verdict) :=
+  match t with
+  | [] => []
+  | (q, o) :: t' => let '(s', r) := step c s q in
+                    (if bool_decide (r_verdict r = o_verdict o) then [] else [(i, r_verdict r, o_verdict o)])
+                    ++ kind_diffs c s' t' (N.succ i)
+  end.
 
 Fixpoint check_trace (c : cfg) (s : hstate) (t : list (req * obs)) : bool :=
   match t with
